@@ -1,4 +1,4 @@
-\* spec mutation (W_Releasable = FALSE = the rule gatherAllocatedDevices has today, known finding F-C17-1..3): TLC must violate Inv_C17_DeviceExclusive
+\* spec mutation (W_Releasable = FALSE = the rule gatherAllocatedDevices had before /repo 576ecc993, findings F-C17-1..3 (fixed)): TLC must violate Inv_C17_DeviceExclusive
 CONSTANTS NCs = {"N1"}  NClaims = 1  Kinds = {"net"}  Pres = {4}  Slots = {0}
 CONSTANTS W_OtherNC = TRUE  W_SameType = TRUE  W_Prealloc = TRUE  W_RefCount = TRUE  W_CapInflight = TRUE  W_CapDelta = TRUE  W_Counters = TRUE  W_Template = TRUE  W_Releasable = FALSE 
 SPECIFICATION Spec
